@@ -401,9 +401,12 @@ func runRxSel(c *Case, tree *Tree) string {
 // 2^(n2-n1)).
 func runGrowth(c *Case, tree *Tree) string {
 	f := strings.Split(c.Extra, ";")
-	pred := unhx(f[0])
-	n1, _ := strconv.Atoi(f[1])
-	n2, _ := strconv.Atoi(f[2])
+	pred := c.Expr
+	if len(f) == 3 {
+		pred, f = unhx(f[0]), f[1:]
+	}
+	n1, _ := strconv.Atoi(f[0])
+	n2, _ := strconv.Atoi(f[1])
 	measure := func(n int) (uint64, bool) {
 		e, err := xpath.Compile("*" + strings.Repeat(pred, n))
 		if err != nil {
@@ -429,4 +432,32 @@ func runGrowth(c *Case, tree *Tree) string {
 		return fmt.Sprintf("growth:exponential(x%.0f from %d to %d predicates)", ratio, n1, n2)
 	}
 	return "growth:ok"
+}
+
+// runCompileGrowth: Compile(head + unit×n) for n = n1, n2 (Expr = unit, Extra = hex(head);n1;n2): the memory Compile
+// allocates must not grow exponentially with the number of repetitions of a construct written one after the other.
+func runCompileGrowth(c *Case) string {
+	f := strings.Split(c.Extra, ";")
+	head, unit := unhx(f[0]), c.Expr
+	n1, _ := strconv.Atoi(f[1])
+	n2, _ := strconv.Atoi(f[2])
+	measure := func(n int) (uint64, bool) {
+		var m0, m1 runtime.MemStats
+		runtime.GC()
+		runtime.ReadMemStats(&m0)
+		_, err := xpath.Compile(head + strings.Repeat(unit, n))
+		runtime.ReadMemStats(&m1)
+		return m1.TotalAlloc - m0.TotalAlloc + 1, err == nil
+	}
+	a, ok1 := measure(n1)
+	b, ok2 := measure(n2)
+	if !ok1 || !ok2 {
+		return "cerr"
+	}
+	ratio := float64(b) / float64(a)
+	bound := 8 * float64(n2) / float64(n1)
+	if ratio > bound {
+		return fmt.Sprintf("cgrowth:exponential(x%.0f from %d to %d repetitions)", ratio, n1, n2)
+	}
+	return "cgrowth:ok"
 }
